@@ -34,6 +34,9 @@ var importMap = map[string][2]string{
 	"sync":                       {"sync", shimBase + "/vsync"},
 	"sync/atomic":                {"atomic", shimBase + "/vatomic"},
 	"golang.org/x/sync/errgroup": {"errgroup", shimBase + "/verrgroup"},
+	// not used by the pinned tree; realistic changes reach for them
+	"golang.org/x/sync/singleflight": {"singleflight", shimBase + "/vsingleflight"},
+	"golang.org/x/sync/semaphore":    {"semaphore", shimBase + "/vsemaphore"},
 }
 
 type siteReport struct {
@@ -102,7 +105,7 @@ func main() {
 				if strings.HasSuffix(fn, "_test.go") {
 					continue
 				}
-				rw := &rewriter{fset: p.Fset, info: p.TypesInfo, file: f, fname: fn, external: !strings.HasPrefix(p.PkgPath, mod)}
+				rw := &rewriter{fset: p.Fset, info: p.TypesInfo, file: f, fname: fn, external: !strings.HasPrefix(p.PkgPath, mod), pkgPath: p.PkgPath}
 				changed := rw.run()
 				sites = append(sites, rw.sites...)
 				if rw.err != nil {
@@ -157,6 +160,7 @@ type rewriter struct {
 	changed  bool
 	tmpN     int
 	external bool
+	pkgPath  string
 }
 
 // externalHook is added (virtually) to rewritten packages outside the main module, which
@@ -229,6 +233,17 @@ func addImport(f *ast.File, name, path string) {
 
 func (r *rewriter) rewriteDecls(decls []ast.Decl) []ast.Decl {
 	for _, d := range decls {
+		// execext.RunCommand(ctx, opts): a scheduling point before the command runs
+		if fd, ok := d.(*ast.FuncDecl); ok && fd.Recv == nil && fd.Name.Name == "RunCommand" && fd.Body != nil && r.pkgPath == mod+"/internal/execext" &&
+			fd.Type.Params != nil && len(fd.Type.Params.List) == 2 && len(fd.Type.Params.List[1].Names) == 1 {
+			opts := fd.Type.Params.List[1].Names[0].Name
+			guard := &ast.IfStmt{
+				Cond: &ast.BinaryExpr{X: ast.NewIdent(opts), Op: token.NEQ, Y: ast.NewIdent("nil")},
+				Body: &ast.BlockStmt{List: []ast.Stmt{&ast.ExprStmt{X: &ast.CallExpr{Fun: r.vs("ExecPoint"), Args: []ast.Expr{&ast.SelectorExpr{X: ast.NewIdent(opts), Sel: ast.NewIdent("Stdout")}}}}}},
+			}
+			fd.Body.List = append([]ast.Stmt{guard}, fd.Body.List...)
+			r.site(fd, "exec.point")
+		}
 		r.walk(d, false)
 	}
 	return decls
